@@ -477,6 +477,9 @@ def get_attr(I, obj, name):
             return obj.args[1]
         if name == 'msg' and obj.args:
             return obj.args[0]
+        if name == 'msg' and obj.cls is not None and issubclass(obj.cls, SyntaxError):
+            # the message of a SyntaxError raised by an external (the Python parser): some value
+            return obj.extra.setdefault('msg', VAny(Val.obj(z3.Int(fresh_name('exc_msg')))))
         if name == '__str__':
             f = z3.Function('exc_str_method', z3.IntSort(), Val)
             return VAny(f(obj.ecls if obj.ecls is not None else z3.IntVal(conc_oid_(obj))))
@@ -2449,6 +2452,10 @@ def pattern_method(I, pat, name, args, kwargs):
         import hashlib
         key = hashlib.md5(('%s|%s' % (getattr(o, 'pattern', id(pat)), repl)).encode()).hexdigest()[:10]
         f = z3.Function('re_sub_' + key, z3.StringSort(), z3.StringSort())
+        for ch in (mandatory_literals(o) if o is not None else []):
+            # REGEX-STRUCT fact: every match contains this literal, so a subject without it has no
+            # match and is returned as it is
+            I.assume(z3.Implies(z3.Not(z3.Contains(subj, z3.StringVal(ch))), f(subj) == subj))
         return VStr(f(subj))
     if name in ('subn', 'sub') and len(args) >= 2:
         # pattern.subn(callable-or-text, s): an uninterpreted function of the subject, which is the
